@@ -1,5 +1,6 @@
 import BornoModel.Eval
 import BornoModel.Lemmas.Interchange
+import BornoModel.Lemmas.InterchangeObj
 /-! # C16 — a value behaves the same however it was produced
 
 The model has exactly one constructor of `Val` per value kind (`Val.num` for every number,
@@ -55,6 +56,12 @@ theorem producers_interchangeable_in_statements (P : Platform) (C : Ctx) (e e' :
     EvS P (.ifS (C.plug e) t el) (.ifS (C.plug e') t el) :=
   have hc := plug_congr P C h
   ⟨evS_print P hc, evS_expr P hc, evS_var P n l hc, evS_return P l hc, evS_ifCond P t el hc⟩
+
+/-- … including the one position `Ctx` leaves out: the initialiser of a property of an object literal -/
+theorem producers_interchangeable_in_object_literals (P : Platform) (C D : Ctx) (pre post : List (Name × Expr)) (k : Name) (tc : Bool)
+    (e e' : Expr) (h : EvEq P e e') :
+    EvEq P (C.plug (.objectLit (pre ++ (k, D.plug e) :: post) tc)) (C.plug (.objectLit (pre ++ (k, D.plug e') :: post) tc)) :=
+  plug_congr_propVal P C pre post k tc D h
 
 /-- two concrete producers of one string: the literal, and the concatenation of its halves -/
 theorem literal_and_concatenation_agree (P : Platform) (s t : List Char) (l1 l2 l3 l4 : Nat) :
